@@ -19,7 +19,8 @@ from ..core import Report, Violation, collect, pmap, seed
 from ..symx import Ctx, Stats, explore
 from ..trees import sig
 
-TEXTS = ["4x + 2", "4x+2", "2 +", "2 $ 3", "x^2 / 3", "(1 + y) * 7"]
+# pairs (0,1) same tokens, different spelling; (4,5) and (6,7) same characters when concatenated, different tokens
+TEXTS = ["4x + 2", "4x+2", "2 +", "2 $ 3", "12", "1 2", "2.5x", "2 .5x", "s gn(x)", "sgn(x)"]
 OPS = ["parse", "tokenize", "tokenize+edit", "clear_cache"]
 
 
@@ -96,7 +97,7 @@ def worker(item: Tuple[int, Tuple[int, int], Tuple[int, int], bool]) -> Dict[str
                 if OPS[op] != "clear_cache":
                     if focus:
                         # thorough tier, long histories: only texts that touch the queried cache key or its spelling twin
-                        pool = sorted({query[1], query[1] ^ 1 if query[1] < 2 else query[1], 2})
+                        pool = sorted({query[1], query[1] ^ 1, 2})
                         ti = pool[ctx.choose(len(pool), f"t{i}_")]
                     else:
                         ti = ctx.choose(len(TEXTS), f"t{i}_")
@@ -149,7 +150,8 @@ def run(tier: str) -> int:
                 items.append((H, f, q, False))
     for f in firsts:
         for q in queries:
-            items.append((3 if tier == "quick" else 5, f, q, True))
+            if OPS[f[0]] == "clear_cache" or f[1] in (q[1], q[1] ^ 1, 2):
+                items.append((3 if tier == "quick" else 5, f, q, True))
     rep.bounds = {"history_length": f"<= {Hmax} operations over all texts, plus length {3 if tier == 'quick' else 5} restricted "
                                     "(after the first operation) to the queried text, its spelling twin and one failing text",
                   "operations": OPS, "texts": TEXTS,
@@ -161,8 +163,8 @@ def run(tier: str) -> int:
         "explored) followed by a query asked twice; the answer (tree signature with payloads, token (type, value) list, or "
         "exception class) must equal a fresh parser's. Mutating returned trees or Token objects is not exercised (not part "
         "of the property). The solver's role is selector feasibility only.")
-    rep.assumptions = ["texts are drawn from a fixed pool of 6 (valid, two spellings of one expression, invalid at parser "
-                       "level, invalid at tokenizer level)"]
+    rep.assumptions = ["texts are drawn from a fixed pool of 10 (valid, two spellings of one expression, invalid at parser / "
+                       "tokenizer level, pairs of texts that differ only in where token boundaries fall)"]
     random.Random(seed()).shuffle(items)
     items.sort(key=lambda it: -it[0])
     collect(rep, pmap(worker, items, budget_s=400 if tier == "quick" else 2400, chunk=4))
